@@ -331,28 +331,10 @@ func (g *gen) inject(pos token.Pos, name string, sig *types.Signature, set *Prov
 	}
 	var pendingVars []pendingVar
 	ec := new(errorCollector)
+	ec.add(injectorCallErrors(g.pkg.Fset.Position(pos), name, calls, injectSig, g.pkg.PkgPath)...)
 	for i := range calls {
 		c := &calls[i]
-		if c.hasCleanup && !injectSig.cleanup {
-			ts := types.TypeString(c.out, nil)
-			ec.add(notePosition(
-				g.pkg.Fset.Position(pos),
-				fmt.Errorf("inject %s: provider for %s returns cleanup but injection does not return cleanup function", name, ts)))
-		}
-		if c.hasErr && !injectSig.err {
-			ts := types.TypeString(c.out, nil)
-			ec.add(notePosition(
-				g.pkg.Fset.Position(pos),
-				fmt.Errorf("inject %s: provider for %s returns error but injection not allowed to fail", name, ts)))
-		}
 		if c.kind == valueExpr {
-			if err := accessibleFrom(c.valueTypeInfo, c.valueExpr, g.pkg.PkgPath); err != nil {
-				// TODO(light): Display line number of value expression.
-				ts := types.TypeString(c.out, nil)
-				ec.add(notePosition(
-					g.pkg.Fset.Position(pos),
-					fmt.Errorf("inject %s: value %s can't be used: %v", name, ts, err)))
-			}
 			if g.values[c.valueExpr] == "" {
 				t := c.valueTypeInfo.TypeOf(c.valueExpr)
 
@@ -391,6 +373,36 @@ func (g *gen) inject(pos token.Pos, name string, sig *types.Signature, set *Prov
 		g.p(")\n\n")
 	}
 	return nil
+}
+
+// injectorCallErrors reports the calls an injector with signature injectSig
+// in package pkgPath cannot make: providers returning a cleanup or an error
+// the injector does not return, and values that are not accessible from the
+// injector's package.
+func injectorCallErrors(pos token.Position, name string, calls []call, injectSig outputSignature, pkgPath string) []error {
+	var errs []error
+	for i := range calls {
+		c := &calls[i]
+		if c.hasCleanup && !injectSig.cleanup {
+			ts := types.TypeString(c.out, nil)
+			errs = append(errs, notePosition(pos,
+				fmt.Errorf("inject %s: provider for %s returns cleanup but injection does not return cleanup function", name, ts)))
+		}
+		if c.hasErr && !injectSig.err {
+			ts := types.TypeString(c.out, nil)
+			errs = append(errs, notePosition(pos,
+				fmt.Errorf("inject %s: provider for %s returns error but injection not allowed to fail", name, ts)))
+		}
+		if c.kind == valueExpr {
+			if err := accessibleFrom(c.valueTypeInfo, c.valueExpr, pkgPath); err != nil {
+				// TODO(light): Display line number of value expression.
+				ts := types.TypeString(c.out, nil)
+				errs = append(errs, notePosition(pos,
+					fmt.Errorf("inject %s: value %s can't be used: %v", name, ts, err)))
+			}
+		}
+	}
+	return errs
 }
 
 // rewritePkgRefs rewrites any package references in an AST into references for the
